@@ -7,6 +7,7 @@ search: every figure the implementation prints is re-computed by the Lean Spec (
 """
 import random, os, json
 from common import *
+from props import base
 import gen, pipeline, model, compare, findings as F, oracle
 
 PROPS_MODULES = ["ShexerModel.Props.C01", "ShexerModel.Props.C01b"]
@@ -118,6 +119,10 @@ def run(ctx):
         v2, _, rep2, _, _, _ = evaluate(ctx, more, kf, check_spec=ctx.spec_ok)
         viol += v2
         rep |= rep2
+    v3, d3, st3 = base.shape_map_cases(ctx, 40 if ctx.tier == "quick" else 500, "figures")
+    viol += v3
+    dis += d3
+    stats["shape_map_cases"] = st3
     # shrink the first violations
     out_v = []
     for v in viol[:3]:
@@ -130,7 +135,7 @@ def run(ctx):
             "rule": "random duplicate-free graphs (1-4 classes, 1-8 nodes incl. blank nodes, 0-3 classes per node, typed/plain/"
                     "language-tagged literals, links between typed nodes; 25 % schema-consistent) x random configuration (all inference "
                     "switches, thresholds on every k/n boundary, targets all/subset, cap, ignored namespaces, 3 instantiation properties, "
-                    "report mode, decimals); thorough adds all graphs with <= 3 extra triples over a 3-node/2-property vocabulary; "
+                    "report mode, decimals); 40 (500) shape-map selections (the family of C10); thorough adds all graphs with <= 3 extra triples over a 3-node/2-property vocabulary; "
                     "non-trivial = some shape has >= 2 instances or statements and a constraint below 100 %",
             "samples": samples, "stats": stats, "violations": out_v, "disagreements": dis, "known": known,
             "generated_deps": GENERATED_DEPS,
